@@ -11,6 +11,7 @@
     entry 5: [table; start; fuel]                           the model's language *)
 From Coq Require Import ZArith NArith QArith List Bool.
 From PS Require Import Base.ListX Base.Sexp Base.Ty Base.Value Base.Prog Gram.Det Gram.U Enum.Checker Run.C04.
+From PS Require Enum.Frontier.
 Import ListNotations.
 Local Open Scope Z_scope.
 
@@ -258,6 +259,14 @@ Definition run_u_merged (s : sexp) : sexp :=
   | _ => bad_case
   end.
 
+(** entry 21: the frontier expansion of Enum/Frontier.v on a list of popped combinations
+    (compared with the combinations bee search pushes for each popped one) *)
+Definition run_children (s : sexp) : sexp :=
+  match asListOf (asListOf asNat) s with
+  | Some cs => ofList (fun c => ofList (ofList ofNat) (PS.Enum.Frontier.children c)) cs
+  | None => bad_case
+  end.
+
 Definition run_case (entry : Z) (s : sexp) : sexp :=
   match entry with
   | 1 => run_once s
@@ -270,5 +279,6 @@ Definition run_case (entry : Z) (s : sexp) : sexp :=
   | 12 => run_u_order s
   | 13 => run_u_filtered s
   | 14 => run_u_merged s
+  | 21 => run_children s
   | _ => bad_case
   end.
